@@ -1,7 +1,7 @@
 """C13 Rotation yields self-contained files and loses, repeats or reorders nothing (ordering clauses)."""
 from .. import ir, writers, consumption
 from ..writers import BASE, WSTR, WINT, PLAIN, GZ, XZ, ENC, EXP, short, ordered_calls, names
-from ..ir import path, path_str, unwrap, callee_name, callee_qn, show, show_f, Env, conjuncts, const_value
+from ..ir import path, path_str, unwrap, unwrap_all_casts, callee_name, callee_qn, show, show_f, Env, conjuncts, const_value
 from ..facts import AnalysisBroken
 from . import C02
 
@@ -135,6 +135,15 @@ def check(run):
             if ok:
                 a = order[id(assigns[0][2])]
                 ok = order[id(own[0][2][0])] < a < order[id(own[1][2][0])]
+            elif seq == ["close"] and len(assigns) == 1:
+                # the other order: close(); a local ofstream opened on the new name; committed to m_out together with the name
+                # (that the name it was opened on is the new name + extension + .part is R13.8)
+                aside = [d_ for d_ in ir.walk(f["body"]) if d_.get("k") == "Decl" and len(d_.get("vars", [])) == 1 and
+                         "basic_ofstream" in (d_["vars"][0].get("t") or "") and d_["vars"][0].get("init") is not None]
+                moved = [n_ for lp_, rhs_, n_ in consumption.assignment_targets(ir.stmts(f["body"])) if lp_ == ("this", "m_out") and aside and
+                         path(unwrap_all_casts(rhs_)) == ("l:%s#%s" % (aside[0]["vars"][0]["n"], aside[0]["vars"][0]["id"]),)]
+                if len(aside) == 1 and len(moved) == 1:
+                    ok = order[id(own[0][2][0])] < order[id(aside[0])] < order[id(moved[0])] and order[id(aside[0])] < order[id(assigns[0][2])]
             run.ob("R13.4", tag + ":close-assign-open", ok, f, f["line"],
                    "old target closed, new target stored, new target opened — in this order" if ok else
                    "expected close(); m_value = <new target>; open(); (found calls %s, %d assignment(s) to m_value)" % (seq, len(assigns)))
